@@ -76,6 +76,18 @@ def gen_cases(rng, tier):
             c["meta"]["poke"] = [pk[0], repr(pk[1])]
         c["meta"]["cfg"] = cfg
         cases.append(c)
+    # weight vectors of every plausible wrong length on multi-column problems (one per data element, one per column, off by one, empty)
+    for ctor in ("mrhs", "mrhs_parallel", "new"):
+        for S in ((2, 3) if ctor != "new" else (1,)):
+            for wk in range(6):
+                c = gen_problem(rng, family="exp2c", N=5, S=S, ctor=ctor, quant=8, scalar=("f32" if wk % 2 else "f64"), weights="none", builder_made=(wk == 3))
+                L = [5 * S, S, 6, 4, 0, 10][wk]
+                c["build"] = [o for o in c["build"] if o[0] != "weights"] + [["weights", [hx(1.5, c["scalar"])] * L]]
+                cfg = {"patience": 5}
+                c["ops"] = [["observe"], ["jac"], ["fit", cfg], ["observe"]]
+                c["meta"]["poke"] = ["wlen_grid", L]
+                c["meta"]["cfg"] = cfg
+                cases.append(c)
     # a fit that is "successful" without the optimizer ever looking at the Jacobian (observations identically zero: ResidualsZero) at
     # parameters whose DERIVATIVES are not finite while the basis functions are (tau^2 underflows): the statistics must still return
     for j in range(12 if tier == "quick" else 120):
